@@ -449,6 +449,27 @@ pub mod verif_hook {
   {
     impl_scheduler_method!(verif_spawn);
   }
+
+  thread_local! {
+    /// what the harness wants to happen at the named points of the current
+    /// thread (see `yield_point`)
+    pub static YIELD: RefCell<Option<Box<dyn FnMut(&'static str)>>> = RefCell::new(None);
+  }
+
+  /// A point at which another thread could be scheduled: the harness plays
+  /// that other thread's step from here.
+  pub fn yield_point(name: &'static str) {
+    let cb = YIELD.with(|y| y.borrow_mut().take());
+    if let Some(mut cb) = cb {
+      cb(name);
+      YIELD.with(|y| {
+        let mut slot = y.borrow_mut();
+        if slot.is_none() {
+          *slot = Some(cb);
+        }
+      });
+    }
+  }
 }
 
 #[cfg(all(test, not(target_arch = "wasm32"), feature = "tokio-scheduler"))]
